@@ -191,6 +191,8 @@ impl ProbeSpace {
                 None,
                 s("2001:db8::1"),
                 s("2001:db9::1"),
+                // an IPv4 client as a dual-stack listener reports it
+                s("::ffff:10.0.0.1"),
             ],
             methods: vec![None, s("GET"), s("POST"), s("PUT"), s("get")],
             headers: vec![
@@ -206,6 +208,7 @@ impl ProbeSpace {
                 h(&[("Y", "1")]),
                 h(&[("Z", "v")]),
                 h(&[("X", "")]),
+                h(&[("X", "V7")]),
             ],
             times: vec![
                 s("2024-03-05T10:00:00Z"), // Tue, inside [T0,T1), inside 09-17
